@@ -35,6 +35,20 @@ func registerGhosts(fx *FnCtx) {
 		fx.ufun("re_tripid_matches", []string{"String"}, "Bool")
 		return SVal{v: Val{t: "(re_tripid_matches " + args[0].v.t + ")"}, typ: boolT}
 	}
+	// the elevator alert id regular expression: whether it matches, and its three groups (uninterpreted; the
+	// per-pattern axiom in externals.go ties them to FindStringSubmatch)
+	fx.ghostFuncs["elevatorMatches"] = func(ev *Evaluator, args []SVal) SVal {
+		fx.ufun("re_elev_matches", []string{"String"}, "Bool")
+		return SVal{v: Val{t: "(re_elev_matches " + args[0].v.t + ")"}, typ: boolT}
+	}
+	for i, n := range []string{"elevStation", "elevDirection", "elevElevator"} {
+		i, n := i, n
+		fx.ghostFuncs[n] = func(ev *Evaluator, args []SVal) SVal {
+			f := fmt.Sprintf("re_elev_group%d", i+1)
+			fx.ufun(f, []string{"String"}, "String")
+			return SVal{v: Val{t: "(" + f + " " + args[0].v.t + ")"}, typ: stringT}
+		}
+	}
 	// feedsLeft(): how many more feeds the journal's source will yield (ghost; a source is finite)
 	fx.ghostFuncs["feedsLeft"] = func(ev *Evaluator, args []SVal) SVal {
 		return SVal{v: Val{t: ev.st.ghost["srcrem"]}, typ: intT}
